@@ -427,6 +427,9 @@ func c02NoFailure(c *Ctx, p *Prog, m *Model, tags string) {
 					if name == "raiseerror" && strings.Contains(tags, "hint") {
 						ok = true // diagnostics build only
 					}
+					if msg == "<param msg>" && onlyCalledFromSpineTail(m, fn) {
+						ok = true // the Panic-severity termination moved into a helper of the spine: decided by R12.1 (inlined)
+					}
 					if !ok {
 						problems = append(problems, fmt.Sprintf("explicit panic(%s) at %s", msg, p.Pos(instrPos(x))))
 					}
